@@ -249,7 +249,9 @@ func main() {
 		return
 	}
 	const T0 = int64(1_700_000_000) * 1_000_000_000
-	pt := func(k string, ti int, v int64) string { return fmt.Sprintf("m,k=%s v=%di %d\n", k, v, T0+int64(ti)*1_000_000_000) }
+	pt := func(k string, ti int, v int64) string {
+		return fmt.Sprintf("m,k=%s v=%di %d\n", k, v, T0+int64(ti)*1_000_000_000)
+	}
 	if !c.write(pt("warm", 0, 1)) {
 		return
 	}
